@@ -345,3 +345,23 @@ def c10(ctx, replay):
                     "twice, values conserved); non-trivial = distinct (records, expression)",
                assumptions=["64-bit hash collisions are outside the model (hash abstracted as injective on its input bytes)",
                             "map iteration orders are sampled by repetition, not enumerated"])
+
+
+@prop("C11")
+def c11(ctx, replay):
+    inv = ["CompositionExact", "NoResurrection", "HeapKeepsKBest"]
+    q = V.tla_str
+    mcs = [dict(name="vecagg-pool", module="MC_VecAgg", consts=dict(MaxSeries=3, Depth=3, Pools=q(T(ctx, "quick", "full")), VecMode=q("pool")), invariants=inv)]
+    if ctx.tier != "quick":
+        mcs.append(dict(name="vecagg-free", module="MC_VecAgg", consts=dict(MaxSeries=3, Depth=2, Pools=q("quick"), VecMode=q("free")), invariants=inv))
+    return std(ctx, "C11", mc=mcs, harness_cmd="metric", harness_opts=["mode=vecagg"], trace_module="Trace_Metric",
+               nrand=T(ctx, 2000, 30000), replay=replay, nontrivial=_metric_nontrivial, exhaustive=True, chunk_events=20000,
+               rule="step 1: nested by/without refinement of one label list (impl-shaped) vs set algebra applied level by level to output "
+                    "labels, group aggregation per key, and the bounded heap of topk/bottomk vs the k extreme values, for input vectors of "
+                    "1-4 series over two labels with value ties, 3 (quick) / 7 (thorough) operators, 9 clauses (none, by (), without (), "
+                    "existing and non-existent labels) and nestings to depth three; thorough adds every input vector of <=3 series at depth "
+                    "two; each case is replayed as logs yielding that input vector (instant: vector order observable; range); random "
+                    "driver: <=10 records, unwrapped and counted inputs, all 7 operators + topk/bottomk k in {1,2,5} + sort/sort_desc; TLC "
+                    "checks every point against the declarative result; non-trivial = distinct (records, expression)",
+               assumptions=["which members tie-break into topk/bottomk and the order of equal values in sort are left open",
+                            "inputs lie inside every window (window edges are C09's subject)"])
